@@ -122,7 +122,18 @@ def translate_pop_sites(path, repo_rel):
 
 
 def regen_eject(out=None, repo=None):
-    repo = repo or fw.REPO
+    out = out or os.path.join(fw.COQ, 'Gen', 'GenEject.v')
+    try:
+        return _regen_eject(out, repo or fw.REPO)
+    except BaseException:
+        # fail closed: never leave a stale generated file behind for the proofs / the model to use
+        for ext in ('.v', '.vo', '.vos', '.vok', '.glob'):
+            if os.path.exists(out[:-2] + ext):
+                os.remove(out[:-2] + ext)
+        raise
+
+
+def _regen_eject(out, repo):
     chunks, meta = translate_pop_sites(os.path.join(repo, ITER), ITER)
     t, m = py2coq.translate_inline_test(
         os.path.join(repo, ITER), 'MoleculeIterator.__iter__', ['self.check_ejection_iter', 'self.check_eject_every'],
@@ -153,5 +164,435 @@ def regen_eject(out=None, repo=None):
          'len(self.umi) != len(other.umi)': 'len_differ', 'hamming_distance(self.umi, other.umi)': 'hdist'},
         'umi_eq_gen', '(umi_same len_differ : bool) (hd hdist : Z)', FRAG)
     chunks.append(t); meta.append(m)
-    py2coq.write_gen(out or os.path.join(fw.COQ, 'Gen', 'GenEject.v'), '', chunks)
+    py2coq.write_gen(out, '', chunks)
     return meta
+
+
+# ----------------------------------------------------------------------------- K (correspondence)
+UMIS = ['AAA', 'AAC', 'ACA', 'CCC', 'ANA', 'AAAA']
+
+
+def pre_py(absf, cfg):
+    """python transcription of Model.C07.preb with the minimal L and lag; returns (holds, L, lag)"""
+    vs = [f for f in absf if f[1]]
+    L = max([f[6] - f[5] for f in vs] + [0])
+    lag = 0
+    for i, f in enumerate(vs):
+        for h in vs[i + 1:]:
+            if h[4] == f[4]:
+                lag = max(lag, f[5] - h[5])
+    ok = all(f[4] != -1 and f[5] <= f[6] for f in vs)
+    # contigs in contiguous blocks
+    seen, cur = set(), None
+    for f in vs:
+        if f[4] != cur:
+            if f[4] in seen:
+                ok = False
+            seen.add(f[4])
+            cur = f[4]
+    ok = ok and cfg['radius'] >= 0 and 2 * (L + lag + cfg['radius']) <= cfg['cache']
+    return ok, L, lag
+
+
+def partition(run):
+    return sorted([tuple(m[0]) for st in run['steps'] for m in st] + [tuple(m[0]) for m in run['flush']])
+
+
+def cfg_val(cfg):
+    return [[] if cfg['every'] is None else [cfg['every']], cfg['pooling'], cfg['cache'], cfg['radius'], cfg['hd'],
+            1 if cfg['yield_invalid'] else 0]
+
+
+def canon_mol(m, absf):
+    """[ids, sample, strand, chrom, start, end, umi]; aggregates of a molecule made of an invalid fragment
+    (yield_invalid) are not compared - its span/strand are undefined in the implementation"""
+    ids = list(m[0])
+    if not all(absf[i][1] for i in ids):
+        return [ids]
+    umi = m[6]
+    return [ids] + [int(x) for x in m[1:6]] + [[ord(c) for c in umi] if isinstance(umi, str) else list(umi)]
+
+
+def canon_run(run, absf):
+    return [[[canon_mol(m, absf) for m in st] for st in run['steps']], [canon_mol(m, absf) for m in run['flush']],
+            1 if run['ok'] else 0]
+
+
+class Prop(fw.PropBase):
+    ID = 'C07'
+    PROPS = 'Props/C07.v'
+    TRUSTED = [
+        'modelled not verified: pysam AlignedSegment accessors and Fragment.__init__ (span, strand, sample, umi, '
+        'is_valid, match_hash of each read pair are taken from the implementation by the harness and given to the model '
+        'as the abstract fragment); pysamiterators mate pairing (the harness feeds (R1,R2) tuples); Python dict insertion '
+        'order, list.pop, collections.Counter.most_common semantics (transcribed by hand in Model/C07.v, watched by K)',
+        'float arithmetic of can_be_yielded: `position < spanStart - cache_size*0.5` is translated as the exact integer '
+        'comparison 2*position < 2*spanStart - cache_size (exact for integer cache_size and |values| < 2^52)',
+        'tools/c07.py translator extensions (guard-chain functions, pop-site extraction, doubled comparisons)',
+        'the control flow of MoleculeIterator.__iter__ around the translated expressions (assignment scan, counters, '
+        'continue on undefined span, flush) is a hand transcription validated by K on every schedule of every library',
+    ]
+    ASSUMPTIONS = [
+        'configuration scope: molecule_class=Molecule, fragment_class=Fragment or a subclass that only sets match_hash; '
+        'every_fragment_as_molecule=False, max_buffer_size=None, max_associated_fragments=None, '
+        'perform_allele_clustering=False, no skip_contigs/min_mapping_qual, max_fragment_size=None, every read has RX and SM',
+        'schedule theorems: valid fragments arrive with starts stepping back at most `lag` within a contig, contigs in '
+        'contiguous blocks, 0 <= end-start <= L, 0 <= radius and 2*(L+lag+assignment_radius) <= cache_size '
+        '(start-sorted input: lag=0, i.e. L+radius <= cache_size/2; mate-pair arrival order: lag<=L). The property text '
+        'says "shorter than the cache radius": fragments longer than cache_size/2 do change the partition (see search notes)',
+    ]
+
+    def regen(self):
+        return regen_eject()
+
+    # ---------------------------------------------------------------- generators
+    def gen_case(self, rng, n, regime):
+        cache = rng.choice([40, 100, 400])
+        radius = rng.choice([0, 0, 0, 2, 7])
+        hd = rng.choice([0, 0, 1])
+        if regime == 'pre':
+            L = max(1, cache // 2 - radius - rng.choice([0, 0, 1, 3]))
+            lens = [1, 2, 5, max(1, L // 2), L, L]
+        elif regime == 'prelag':
+            L = max(1, (cache // 2 - radius) // 2)
+            lens = [1, 2, 5, max(1, L // 2), L, L]
+        else:
+            L = cache
+            lens = [1, 2, 5, cache // 4, cache // 2, cache // 2 + 3, cache - 1]
+        gaps = [0, 0, 0, 0, 1, 2, 5, cache // 2 - 2, cache // 2, cache // 2 + 2, cache // 2 + 7, cache, 2 * cache]
+        frags = []
+        pos, chrom, nsm = 1000, 0, rng.choice([1, 2, 3])
+        umis = rng.sample(UMIS, rng.choice([1, 2, 3]))
+        for i in range(n):
+            if frags and rng.random() < 0.12:
+                chrom = chrom + 1 if chrom < 3 else chrom
+                if regime == 'wild' and rng.random() < 0.4:
+                    chrom = rng.randrange(0, 4)
+                pos = rng.choice([1000, pos, rng.randint(900, 1100)])
+            pos += rng.choice(gaps)
+            start = pos
+            if regime != 'pre' and rng.random() < 0.25:
+                start = max(0, pos - rng.choice([1, 2, L // 2 if regime == 'prelag' else cache // 3]))
+            ln = rng.choice(lens)
+            if regime == 'prelag':
+                ln = min(ln, L)
+            rev = rng.random() < 0.3
+            spec = {'chrom': chrom, 'sm': rng.randrange(nsm), 'rx': rng.choice(umis), 'qcfail': rng.random() < 0.04,
+                    'r1': [start, ln, rev], 'r2': None}
+            same = [f for f in frags[-5:] if f['chrom'] == chrom and f['r2'] is None and not f['qcfail']]
+            u = rng.random()
+            if same and u < 0.2:      # an exact PCR duplicate of a recent fragment
+                src = rng.choice(same)
+                if regime == 'wild' or src['r1'][0] >= start:
+                    spec = dict(src, r1=list(src['r1']))
+            elif same and u < 0.4:    # same END as a recent fragment, later start (joins through the end coordinate)
+                src = rng.choice(same)
+                end = src['r1'][0] + src['r1'][1]
+                if end > start:
+                    spec = dict(src, r1=[start, end - start, src['r1'][2]])
+            elif same and u < 0.55:   # same START as the previous fragment, another length
+                src = same[-1]
+                if regime == 'wild' or src['r1'][0] >= start:
+                    spec = dict(src, r1=[src['r1'][0], ln, src['r1'][2]])
+            elif u < 0.7 and ln >= 2:  # a proper pair spanning the same region
+                l1 = rng.randint(1, ln)
+                l2 = rng.randint(1, ln)
+                spec['r1'] = [start, l1, False]
+                spec['r2'] = [start + ln - l2, l2, True]
+                if rng.random() < 0.3:
+                    spec['r1'], spec['r2'] = [start + ln - l2, l2, True], [start, l1, False]
+            if rng.random() < 0.15:
+                spec = dict(spec, rx=rng.choice(umis))
+            frags.append(spec)
+        cfgbase = {'cache': cache, 'radius': radius, 'hd': hd, 'yield_invalid': rng.random() < 0.3}
+        return {'frags': frags, 'cls': rng.choice(['Fragment', 'HashedFragment']), 'cfgs': self.all_schedules(cfgbase, n)}
+
+    def gen_scenario(self, rng):
+        """boundary-directed library: a molecule whose members share a start or an end, an unrelated fragment whose
+        end (the `position` given to can_be_yielded) sits at cache_size/2 +-1 beyond the molecule's span end, its
+        smallest member end or its start, and a late fragment aligned to one member's start or end."""
+        cache = rng.choice([40, 100])
+        radius = rng.choice([0, 0, 2])
+        L = cache // 2 - radius
+        s0 = 1000
+        mk = lambda st, en, rx: {'chrom': 0, 'sm': 0, 'rx': rx, 'qcfail': False, 'r1': [st, max(1, en - st), False], 'r2': None}
+        lens = [2, 5, max(2, L // 2), L]
+        members = [(s0, s0 + rng.choice(lens))]
+        for _ in range(rng.choice([0, 1, 1, 2])):
+            a, b = rng.choice(members)
+            if rng.random() < 0.5:
+                members.append((a, a + rng.choice(lens)))                  # same start
+            else:
+                st = rng.randint(a, max(a, b - 1))
+                members.append((st, b))                                    # same end, later start
+        span_end, min_end = max(e for _, e in members), min(e for _, e in members)
+        T = rng.choice([span_end, min_end, s0]) + cache // 2 + rng.choice([-1, 0, 1, 2])
+        lg = rng.choice([1, max(1, L // 2), L])
+        g = (max(T - lg, max(a for a, _ in members)), T)
+        frs = [mk(a, b, 'AAA') for a, b in members] + [mk(g[0], g[1], rng.choice(['CCC', 'AAA']))]
+        for _ in range(rng.choice([1, 1, 2])):
+            a, b = rng.choice(members + [g])
+            st = max(g[0], a) if rng.random() < 0.5 else rng.randint(g[0], max(g[0], b - 1))
+            en = b if st < b and rng.random() < 0.7 else st + rng.choice(lens)
+            frs.append(mk(st, en, rng.choice(['AAA', 'AAA', 'CCC'])))
+        frs.sort(key=lambda f: f['r1'][0])
+        base = {'cache': cache, 'radius': radius, 'hd': 0, 'yield_invalid': False}
+        return {'frags': frs, 'cls': rng.choice(['Fragment', 'HashedFragment']), 'cfgs': self.all_schedules(base, len(frs))}
+
+    @staticmethod
+    def all_schedules(base, n):
+        return [dict(base, every=e, pooling=p) for p in (0, 1) for e in [None] + list(range(0, n + 1))]
+
+    def corpus_cases(self):
+        d = os.path.join(fw.VERIF, 'corpus', 'C07')
+        out = []
+        if os.path.isdir(d):
+            for fn in sorted(os.listdir(d)):
+                if fn.endswith('.json'):
+                    c = json.load(open(os.path.join(d, fn)))
+                    c['name'] = fn
+                    out.append(c)
+        return out
+
+    def small_exhaustive(self, nmax):
+        """every library of <= nmax single-end fragments over a tiny alphabet (gap x length x umi), all schedules"""
+        cache = 40
+        alpha = [(g, ln, u) for g in (0, 23) for ln in (2, 12) for u in ('AAA', 'CCC')]
+        out = []
+        for n in range(1, nmax + 1):
+            for combo in itertools.product(alpha, repeat=n):
+                pos, frags = 100, []
+                for g, ln, u in combo:
+                    pos += g
+                    frags.append({'chrom': 0, 'sm': 0, 'rx': u, 'qcfail': False, 'r1': [pos, ln, False], 'r2': None})
+                base = {'cache': cache, 'radius': 0, 'hd': 0, 'yield_invalid': False}
+                out.append({'frags': frags, 'cls': 'Fragment', 'cfgs': self.all_schedules(base, n)})
+        return out
+
+    def cases(self):
+        quick = self.tier == 'quick'
+        out = self.corpus_cases()
+        self.n_corpus = len(out)
+        N = 160 if quick else 1500
+        for k in range(N):
+            n = self.rng.choice([2, 3, 4, 5, 6, 8, 10] if quick else [2, 3, 4, 5, 6, 7, 8, 10, 14, 20])
+            regime = ['pre', 'pre', 'prelag', 'wild'][k % 4]
+            out.append(self.gen_case(self.rng, n, regime))
+        for k in range(150 if quick else 2000):
+            out.append(self.gen_scenario(self.rng))
+        ex = self.small_exhaustive(3 if quick else 4)
+        self.n_exhaustive = len(ex)
+        return out + ex
+
+    # ---------------------------------------------------------------- K
+    def run_impl_cases(self, cases, chunk=250):
+        from concurrent.futures import ThreadPoolExecutor
+        parts = [cases[i:i + chunk] for i in range(0, len(cases), chunk)]
+        if len(parts) <= 1:
+            return fw.run_impl('impl_c07.py', {'cases': cases})['cases']
+        with ThreadPoolExecutor(max_workers=min(8, fw.NPROC)) as ex:
+            rs = list(ex.map(lambda p: fw.run_impl('impl_c07.py', {'cases': p})['cases'], parts))
+        return [r for part in rs for r in part]
+
+    def correspondence(self):
+        cases = self.cases()
+        res = self.run_impl_cases(cases)
+        self.case_list, self.impl_res = cases, res
+        inputs, impl_out, index = [], [], []
+        nontrivial, hist_n, hist_reg = set(), {}, {}
+        n_ejecting = n_multi = n_pre = n_err = 0
+        pre_inputs = []
+        for ci, (case, r) in enumerate(zip(cases, res)):
+            absf = r['abs']
+            hist_n[len(absf)] = hist_n.get(len(absf), 0) + 1
+            for cfg, run in zip(case['cfgs'], r['runs']):
+                inp = [cfg_val(cfg), fw.to_val(absf)]
+                inputs.append(inp)
+                impl_out.append(canon_run(run, absf))
+                index.append((ci, cfg))
+                ej = any(any(all(absf[i][1] for i in m[0]) for m in st) for st in run['steps'])
+                multi = any(len(m[0]) > 1 for st in run['steps'] for m in st) or any(len(m[0]) > 1 for m in run['flush'])
+                n_ejecting += ej
+                n_multi += multi
+                n_err += run['error'] is not None
+                ok, L, lag = pre_py(absf, cfg)
+                n_pre += ok
+                pre_inputs.append((inp + [L, lag], 1 if ok else 0))
+                if ej and multi:
+                    nontrivial.add(fw.canon_hash(inp))
+        self.cov.update({
+            'evaluations': len(inputs),
+            'distinct_nontrivial': len(nontrivial),
+            'rule': 'one evaluation = one (library, configuration) run of the real MoleculeIterator compared step by step '
+                    '(molecules yielded after each consumed read pair, then the flush; members in order, sample, strand, '
+                    'contig, span, umi of each molecule) with the model. non-trivial = at least one molecule ejected before '
+                    'the flush AND at least one molecule with >= 2 fragments; distinct by hash of (configuration, abstract fragments)',
+            'libraries': len(cases), 'corpus_libraries': self.n_corpus, 'exhaustive_small_libraries': self.n_exhaustive,
+            'runs_with_ejection_before_flush': n_ejecting, 'runs_with_multi_fragment_molecule': n_multi,
+            'runs_raising': n_err,
+            'precondition_hit_rate': round(n_pre / max(1, len(inputs)), 4),
+            'library_size_histogram': {str(k): v for k, v in sorted(hist_n.items())},
+            'schedules': 'every library is run for check_eject_every in {None, 0..n} x pooling_method {0,1} (all schedules '
+                         'that differ for n fragments)',
+            'exhaustive': 'all libraries of <= %d single-end fragments over {gap 0|23} x {length 2|12} x {umi AAA|CCC}, '
+                          'cache 40, every schedule, both pooling methods' % (3 if self.tier == 'quick' else 4),
+            'samples': [{'input': {'cfg': index[i][1], 'abs': res[index[i][0]]['abs']}, 'impl': impl_out[i]}
+                        for i in (0, len(inputs) // 2, len(inputs) - 1) if i < len(inputs)],
+        })
+        if not self.model_ok:
+            return
+        mout = fw.run_model('C07', 0, inputs)
+        dis = []
+        for i, (a, b) in enumerate(zip(mout, impl_out)):
+            ci, cfg = index[i]
+            absf = res[ci]['abs']
+            a = [[[canon_mol(m, absf) for m in st] for st in a[0]], [canon_mol(m, absf) for m in a[1]], a[2]]
+            if a != b:
+                dis.append({'case': ci, 'cfg': cfg, 'frags': cases[ci]['frags'], 'cls': cases[ci]['cls'],
+                            'model': a, 'impl': b, 'impl_error': res[ci]['runs'][case_cfg_index(cases[ci], cfg)]['error']})
+        mpre = fw.run_model('C07', 1, [p[0] for p in pre_inputs])
+        predis = [i for i, (m, p) in enumerate(zip(mpre, pre_inputs)) if m != p[1]]
+        self.cov['traces_validated_against_impl'] = len(inputs)
+        self.cov['disagreements'] = len(dis)
+        idx = sorted(self.rng.sample(range(len(inputs)), min(100, len(inputs))))
+        ok, nm, log = fw.vm_crosscheck('C07', 0, [(inputs[i], mout[i]) for i in idx])
+        self.cov['vm_compute_crosscheck'] = {'cases': len(idx), 'mismatches': nm}
+        if not ok:
+            raise fw.Broken('extraction', 'vm_compute and extracted model disagree: ' + log[-800:])
+        if predis:
+            raise fw.Broken('correspondence', 'python transcription of the precondition and Model preb disagree on %d inputs; '
+                            'first: %r' % (len(predis), pre_inputs[predis[0]][0]))
+        if dis:
+            self.dis = dis
+            d = min(dis, key=lambda d: len(d['frags']))
+            raise fw.Broken('correspondence', 'model and implementation disagree on %d of %d runs; smallest: %s'
+                            % (len(dis), len(inputs), json.dumps(d)[:1500]))
+
+
+def case_cfg_index(case, cfg):
+    return case['cfgs'].index(cfg)
+
+
+# ----------------------------------------------------------------------------- search (specification on the implementation)
+def spec_violations(case, res):
+    """Direct Python transcription of the theorems' statements, evaluated on the implementation's outputs
+    (no model involved): emit-once / completion for every run; under the precondition also
+    partition(every) == partition(None) and no-early-eject.  Returns a list of (key, text, cfg)."""
+    absf = res['abs']
+    out = []
+    base = {}
+    for cfg, run in zip(case['cfgs'], res['runs']):
+        if cfg['every'] is None:
+            base[cfg['pooling']] = partition(run)
+    for cfg, run in zip(case['cfgs'], res['runs']):
+        if run['error'] is not None:
+            out.append(('exception', 'MoleculeIterator raised %s' % run['error'], cfg))
+            continue
+        wanted = sorted(f[0] for f in absf if f[1] or cfg['yield_invalid'])
+        got = sorted(i for mol in partition(run) for i in mol)
+        if got != wanted:
+            out.append(('emit-once', 'fragments yielded %r, fragments expected exactly once %r' % (got, wanted), cfg))
+            continue
+        ok, L, lag = pre_py(absf, cfg)
+        if not ok:
+            continue
+        p0 = base.get(cfg['pooling'])
+        pe = partition(run)
+        if p0 is not None and pe != p0:
+            ncontig = len(set(f[4] for f in absf if f[1]))
+            out.append(('partition-depends-on-schedule:%s' % ('one-contig' if ncontig <= 1 else 'several-contigs'),
+                        'check_eject_every=%r gives molecules %r but never ejecting gives %r (pooling_method=%d, cache_size=%d, '
+                        'assignment_radius=%d, L=%d, lag=%d)' % (cfg['every'], [list(x) for x in pe], [list(x) for x in p0],
+                                                                 cfg['pooling'], cfg['cache'], cfg['radius'], L, lag), cfg))
+        elif run['late']:
+            out.append(('early-eject', 'molecule %r was yielded after read %r although later read %r still matches it'
+                        % (run['late'][0][1], run['late'][0][0], run['late'][0][2]) if run['late'][0][0] != 'error'
+                        else 'late-join evaluation failed: %r' % (run['late'][0],), cfg))
+    return out
+
+
+def _search(self):
+    cases = getattr(self, 'case_list', None)
+    res = getattr(self, 'impl_res', None)
+    if cases is None or res is None:
+        cases = self.cases()
+        res = self.run_impl_cases(cases)
+    best = {}
+    n_checked = 0
+    gap = {'examined': 0, 'schedule_dependent': 0, 'example': None}
+    for case, r in zip(cases, res):
+        n_checked += len(case['cfgs'])
+        for key, text, cfg in spec_violations(case, r):
+            if key not in best or len(case['frags']) < len(best[key][0]['frags']):
+                best[key] = (case, cfg, text)
+        # the gap between the theorem's inequality and the property's wording (fragments shorter than cache_size)
+        absf = r['abs']
+        vs = [f for f in absf if f[1]]
+        for cfg, run in zip(case['cfgs'], r['runs']):
+            ok, L, lag = pre_py(absf, cfg)
+            ok_but_ineq, _, _ = pre_py(absf, dict(cfg, cache=10 ** 12))
+            if not ok and ok_but_ineq and L < cfg['cache'] and run['error'] is None:
+                gap['examined'] += 1
+                p0 = [partition(x) for c2, x in zip(case['cfgs'], r['runs']) if c2['every'] is None and c2['pooling'] == cfg['pooling']]
+                if p0 and partition(run) != p0[0]:
+                    gap['schedule_dependent'] += 1
+                    if gap['example'] is None or len(case['frags']) < len(gap['example']['frags']):
+                        gap['example'] = {'frags': case['frags'], 'cls': case['cls'], 'cfg': cfg, 'L': L, 'lag': lag}
+    if not best:
+        # nothing in the standard streams: a deeper, precondition-focused stream (only reached when something broke)
+        import random
+        rng = random.Random(self.seed * 7919 + 17)
+        extra = [self.gen_case(rng, rng.choice([4, 5, 6, 7]), rng.choice(['pre', 'pre', 'prelag']))
+                 for _ in range(600 if self.tier == 'quick' else 3000)]
+        extra += [self.gen_scenario(rng) for _ in range(1500 if self.tier == 'quick' else 6000)]
+        rs = self.run_impl_cases(extra)
+        for case, r in zip(extra, rs):
+            n_checked += len(case['cfgs'])
+            for key, text, cfg in spec_violations(case, r):
+                if key not in best or len(case['frags']) < len(best[key][0]['frags']):
+                    best[key] = (case, cfg, text)
+    self.cov['search'] = {'runs_checked_against_spec': n_checked,
+                          'spec': 'python transcription of C07_emit_once / C07_no_index_error (all runs) and of '
+                                  'C07_schedule_independent_partition / C07_no_early_eject (runs satisfying preb)',
+                          'gap_L_between_inequality_and_cache': gap}
+    for key, (case, cfg, text) in best.items():
+        small = self.shrink(case, cfg, key)
+        r2 = self.run_impl_cases([small])[0]
+        v = [x for x in spec_violations(small, r2) if x[0] == key]
+        text2, cfg2 = (v[0][1], v[0][2]) if v else (text, cfg)
+        self.witnesses.append({'key': key, 'what': text2,
+                               'input': {'frags': small['frags'], 'cls': small['cls'], 'cfg': cfg2},
+                               'impl': {'abs': r2['abs'],
+                                        'partitions': {'%s/pooling%d' % (c['every'], c['pooling']): [list(x) for x in partition(x_)]
+                                                       for c, x_ in zip(small['cfgs'], r2['runs']) if x_['error'] is None}},
+                               'expected': 'the same set of molecules for every check_eject_every as for None; every fragment '
+                                           'in exactly one molecule; no exception'})
+
+
+def _shrink(self, case, cfg, key):
+    """greedy removal of fragments while the same kind of violation remains (all schedules re-run)"""
+    cur = {'frags': list(case['frags']), 'cls': case['cls']}
+    base = {k: cfg[k] for k in ('cache', 'radius', 'hd', 'yield_invalid')}
+    for _ in range(30):
+        n = len(cur['frags'])
+        if n <= 2:
+            break
+        cands = []
+        for i in range(n):
+            fr = cur['frags'][:i] + cur['frags'][i + 1:]
+            cands.append({'frags': fr, 'cls': cur['cls'], 'cfgs': Prop.all_schedules(base, len(fr))})
+        rs = self.run_impl_cases(cands)
+        hit = None
+        for cand, r in zip(cands, rs):
+            if any(v[0] == key for v in spec_violations(cand, r)):
+                hit = cand
+                break
+        if hit is None:
+            break
+        cur = hit
+    cur['cfgs'] = Prop.all_schedules(base, len(cur['frags']))
+    return cur
+
+
+Prop.search = _search
+Prop.shrink = _shrink
